@@ -22,6 +22,62 @@ def prelude(pms, msg):
         pms.common.crc(msg, encode=True)
     except Exception:
         pass
+    crosstalk(pms, msg)
+
+
+def _h(msg):
+    x = 1469598103934665603
+    for ch in msg:
+        x = ((x ^ ord(ch)) * 1099511628211) & 0xFFFFFFFFFFFFFFFF
+    return x
+
+
+def crosstalk(pms, msg):
+    """Other messages of the *same aircraft* (same address field, other type codes: identification, position of both parities, surface
+    position, velocity, target state, operational status of version 1 or 2) decoded with the usual functions before the judged call.
+    A decoder must not depend on what else has been decoded for that address (per-aircraft memory, caches keyed by the address)."""
+    if len(msg) != 28:
+        return
+    try:
+        first = int(msg[:2], 16)
+    except ValueError:
+        return
+    if first >> 3 not in (17, 18):
+        return
+    A = pms.adsb
+    x = _h(msg)
+    head = msg[:8]
+    low = (x >> 8) & ((1 << 51) - 1)
+    ver = 1 + (x & 1)
+    plan = (
+        (31, low & ~(7 << 13) | (ver << 13), (A.version, A.nic_s, A.nic_a_c, A.nac_p, A.sil)),
+        (19, low & ~(7 << 48) | (1 << 48), (A.velocity, A.speed_heading, A.nac_v)),
+        (4, low, (A.callsign, A.category)),
+        (11, low & ~(1 << 34), (A.altitude, A.nic_b, A.oe_flag)),
+        (11, low | (1 << 34), (A.altitude, A.oe_flag)),
+        (7, low, (A.surface_velocity,)),
+        (29, low & ~(3 << 49) | (1 << 49), (A.selected_altitude, A.baro_pressure_setting, A.autopilot)),
+        (28, low & ~(7 << 48) | (1 << 48), (A.emergency_state, A.emergency_squawk)),
+    )
+    frames_ = []
+    for tc, rest, fns in plan:
+        m = "%s%014X%06X" % (head, (tc << 51) | rest, (x >> 20) & 0xFFFFFF)
+        frames_.append(m)
+        for fn in fns:
+            try:
+                fn(m)
+            except Exception:
+                pass
+        try:
+            pms.common.typecode(m), pms.common.icao(m), pms.bds.infer(m)
+        except Exception:
+            pass
+    try:
+        A.position(frames_[3], frames_[4], 10, 11, 52.0, 4.0)
+        A.position_with_ref(frames_[3], 52.0, 4.0)
+        A.nic_v1(frames_[3], 1), A.nic_v2(frames_[3], 1, 1)
+    except Exception:
+        pass
 
 
 def str_variants(msg):
